@@ -3,8 +3,13 @@
 import json, sys
 pid, tests = sys.argv[1], sys.argv[2]
 extra = sys.argv[3] if len(sys.argv) > 3 else ""
+import os
+if os.environ.get("MUT_HARD"):
+    extra += """
+An earlier round of straightforward single-site slips (a swapped comparison, a dropped term, a wrong default) has already been produced by somebody else; do NOT repeat that style. Aim for changes of a different character, for example: (1) stale state or caching that leaks between calls or between objects (module-level caches, objects sharing arrays, in-place modification of an argument or of a returned view); (2) behaviour that only changes beyond a size / count / magnitude threshold or at a dtype limit (vectorised fast paths, chunking, integer width selection); (3) rarely used options and argument combinations, or input container types (list vs ndarray vs other dtype, Fortran order, non-contiguous views, 0-length inputs); (4) two cooperating sites that each look fine alone; (5) error paths: what state is left behind after an exception, or which exception is raised. Each of your three mutants should come from a different one of these families."""
 p = [json.loads(l) for l in open('/verif/properties.jsonl') if json.loads(l)['id'] == pid][0]
-wt = f"/tmp/mut_{pid}"
+tag = __import__("os").environ.get("MUT_TAG", "")
+wt = f"/tmp/mut{tag}_{pid}"
 files = ", ".join(p['anchors']['files'])
 txt = f"""You are helping to evaluate a verification effort by writing realistic *breaking changes* to an open-source library. You work ONLY inside the scratch git worktree {wt} (a checkout of the Python bioinformatics library biotite; run Python as `PYTHONPATH={wt}/src /venv/bin/python`, which makes the worktree's code win over the installed one; compiled extension modules are already present; Cython is NOT available, so change only .py files - .pyx files cannot be rebuilt and edits to them have no effect). Do not read or touch anything under /verif or /repo.
 
@@ -18,11 +23,11 @@ Relevant code: {files} (and the .py code they call).
 
 Task: produce THREE different, independent changes ("mutants") to the library, each of which breaks this property while the code still imports and the existing test suite still passes. Test command: `cd {wt} && PYTHONPATH={wt}/src /venv/bin/python -m pytest -q -p no:cacheprovider -n 4 {tests}` - first record which tests already fail BEFORE your change (many fail in this environment because the Chemical Component Dictionary and some data files are missing) and make sure your change adds no new failure (compare the sets of failing test ids, e.g. with `-rf`). Each change should look like a plausible refactoring/optimisation/cleanup slip by a maintainer, and should need something specific to manifest - an unusual input, a particular combination of options, a multi-step sequence of operations, a fault at a particular point, or two cooperating sites that each look fine alone - NOT something ordinary use would expose at once. Make the three mutants differ in which sentence/clause of the property they break and in which function they touch.
 
-For each mutant i in 1..3 deliver in /tmp/mut_{pid}_out/m<i>/:
+For each mutant i in 1..3 deliver in /tmp/mut{tag}_{pid}_out/m<i>/:
 - patch.diff : `git diff` output of the change relative to the worktree HEAD (must apply with `git apply` on a clean checkout),
 - demo.py : a small standalone program that exits 0 on the original code and exits 1 (printing what went wrong) with the change applied, when run as `PYTHONPATH=<tree>/src /venv/bin/python demo.py` (if the property needs the Chemical Component Dictionary, avoid that code path or build the needed inputs by hand),
 - meta.json : {{"property": "{pid}", "breaks": "<which sentence>", "needs": "<what specific input/sequence is needed to manifest>", "files": [...], "tests_run": "<command>", "tests_result": "<failing set identical to baseline: N failed / M passed>"}}.
 Work on one mutant at a time: apply, run tests, run demo (must exit 1), `git -C {wt} checkout -- .` to revert, run demo again (must exit 0). Leave the worktree clean (no uncommitted changes) at the end. Keep total effort moderate (aim to finish within about 30-40 minutes). Final message: a short list of the three mutants (one line each).
 """
-open(f"/tmp/mutprompt_{pid}.txt", "w").write(txt)
-print(f"/tmp/mutprompt_{pid}.txt")
+open(f"/tmp/mutprompt{tag}_{pid}.txt", "w").write(txt)
+print(f"/tmp/mutprompt{tag}_{pid}.txt")
